@@ -132,7 +132,7 @@ func c19Algebra(full bool) []*c19Val {
 	return vs
 }
 
-var c19DupRe = regexp.MustCompile(`^duplicate value .* is found in matrix "k"`)
+var c19DupRe = regexp.MustCompile(`^duplicate value .* is found in matrix "[kK]"`)
 var c19NoKeyRe = regexp.MustCompile(`^"([^"]+)" in "exclude" section does not exist in matrix`)
 var c19NoMatchRe = regexp.MustCompile(`^value .* in "exclude" does not match in matrix "([^"]+)" combinations`)
 
@@ -221,19 +221,36 @@ type c19Exclude struct {
 	ExcKey  string
 	ExcVal  *c19Val
 	ExcExpr bool
+	// KeyCase: bit 0 = keys of rows and include entries written with a capital first letter,
+	// bit 1 = the key of the exclude entry written in upper case (keys are case-insensitive)
+	KeyCase int `json:"key_case,omitempty"`
+}
+
+func (c *c19Exclude) defKey(k string) string {
+	if c.KeyCase&1 != 0 && k != "" {
+		return strings.ToUpper(k[:1]) + k[1:]
+	}
+	return k
+}
+
+func (c *c19Exclude) excKey(k string) string {
+	if c.KeyCase&2 != 0 {
+		return strings.ToUpper(k)
+	}
+	return k
 }
 
 func (c *c19Exclude) render() (src string, desc string) {
 	var b strings.Builder
 	b.WriteString(c19Head)
 	if c.RowExpr {
-		b.WriteString("        k: ${{ fromJSON(vars.ROW) }}\n")
+		b.WriteString("        " + c.defKey("k") + ": ${{ fromJSON(vars.ROW) }}\n")
 	} else if c.Row != nil {
 		parts := make([]string, len(c.Row))
 		for i, v := range c.Row {
 			parts[i] = v.yaml()
 		}
-		b.WriteString("        k: [" + strings.Join(parts, ", ") + "]\n")
+		b.WriteString("        " + c.defKey("k") + ": [" + strings.Join(parts, ", ") + "]\n")
 	}
 	switch {
 	case c.IncExpr == 2:
@@ -241,15 +258,15 @@ func (c *c19Exclude) render() (src string, desc string) {
 	case c.IncExpr == 1:
 		b.WriteString("        include:\n          - ${{ fromJSON(vars.INC) }}\n")
 	case c.IncKey != "":
-		b.WriteString("        include:\n          - {" + c.IncKey + ": " + c.IncVal.yaml() + "}\n")
+		b.WriteString("        include:\n          - {" + c.defKey(c.IncKey) + ": " + c.IncVal.yaml() + "}\n")
 		if c.Inc2Key != "" {
-			b.WriteString("          - {" + c.Inc2Key + ": " + c.Inc2Val.yaml() + "}\n")
+			b.WriteString("          - {" + c.defKey(c.Inc2Key) + ": " + c.Inc2Val.yaml() + "}\n")
 		}
 	}
 	if c.ExcExpr {
 		b.WriteString("        exclude:\n          - ${{ fromJSON(vars.EXC) }}\n")
 	} else {
-		b.WriteString("        exclude:\n          - {" + c.ExcKey + ": " + c.ExcVal.yaml() + "}\n")
+		b.WriteString("        exclude:\n          - {" + c.excKey(c.ExcKey) + ": " + c.ExcVal.yaml() + "}\n")
 	}
 	b.WriteString(c19Tail)
 	src = b.String()
@@ -294,6 +311,14 @@ func (c *c19Exclude) reference() string {
 }
 
 func c19ExcludeCase(r *vReport, c *c19Exclude, lint func(string) vLintResult) {
+	if c.KeyCase == 0 && vReplayInput() == nil {
+		// the same case with the keys in other letter cases (all four combinations)
+		for kc := 1; kc <= 3; kc++ {
+			c2 := *c
+			c2.KeyCase = kc
+			c19ExcludeCase(r, &c2, lint)
+		}
+	}
 	src, desc := c.render()
 	res := lint(src)
 	r.Evaluations++
